@@ -258,16 +258,16 @@ func genPlan(tier string, r *core.Rand) Plan {
 	}
 	if r.Chance(0.08) {
 		c.CloserAtMs = r.Range(1, 5000)
-		if r.Chance(0.5) {
-			// Write pacing ends with a plain sleep inside the pipe; keep it odd and the
-			// segment latencies of that direction even, so that the end of the sleep
-			// never falls on the delivery instant of one of the write's own segments
-			// (same base, so no jitter separates them; the wake-up order is then the
-			// runtime's and not repeatable).
-			p.Link.AB.WriteDelayUs = core.Tape(r, r.Range(1, 3), func() int { return r.Intn(2000) | 1 })
-			for j := range p.Link.AB.LatUs {
-				p.Link.AB.LatUs[j] &^= 1
-			}
+	}
+	if r.Chance(0.06) {
+		// Write pacing ends with a plain sleep inside the pipe; keep it odd and the
+		// segment latencies of that direction even, so that the end of the sleep
+		// never falls on the delivery instant of one of the write's own segments
+		// (same base, so no jitter separates them; the wake-up order is then the
+		// runtime's and not repeatable).
+		p.Link.AB.WriteDelayUs = core.Tape(r, r.Range(1, 3), func() int { return r.Intn(2000) | 1 })
+		for j := range p.Link.AB.LatUs {
+			p.Link.AB.LatUs[j] &^= 1
 		}
 	}
 	return p
